@@ -4,6 +4,7 @@
   runtime/sam/expr/sort.go, eval.go on every check); the model is Zed.Model.Compare.
 -/
 import Zed.Proofs.Rows
+import Zed.Proofs.Merge
 namespace Zed.Props.C06
 open Zed
 
@@ -40,8 +41,8 @@ theorem null_branches :
   `cmpVal a a = eq`, `cmpVal b a = (cmpVal a b).swap` and
   `cmpVal a b ≠ gt → cmpVal b c ≠ gt → cmpVal a c ≠ gt`.
   Reflexivity and antisymmetry hold for all values; transitivity is FALSE of the current code
-  (`not_compare_transitive`, `not_compare_transitive_named`) and is proved under the guards
-  `Val.ok` (well-formed, no nested named types) and `PairOK` (no integer beyond ±2^53 meets a
+  (`not_compare_transitive`) and is proved under the guards `Val.ok` (well-formed: the shape of
+  the value is the one its type prescribes) and `PairOK` (no integer beyond ±2^53 meets a
   float) in `compare_total_preorder_partial`. -/
 
 theorem compare_refl (nullsMax : Bool) (a : Val) : cmpVal nullsMax a a = .eq := cmpVal_refl nullsMax a
@@ -78,13 +79,12 @@ def tXZ : Ty := .named [120] (.named [122] tInt64)
 def tRA : Ty := .record (.cons [97] tXY .nil)
 def tRB : Ty := .record (.cons [97] tXZ .nil)
 
-/-- values of two distinct record types that `CompareTypes` cannot tell apart (C05): all values of
-    the two types compare equal across types, but are ordered by content inside one type. -/
-theorem not_compare_transitive_named :
-    ¬ (∀ (nullsMax : Bool) (a b c : Val),
-        cmpVal nullsMax a b ≠ .gt → cmpVal nullsMax b c ≠ .gt → cmpVal nullsMax a c ≠ .gt) := by
-  intro h
-  exact h true (.raw tRA [2, 4]) (.raw tRB [2, 2]) (.raw tRA [2, 2]) (by decide) (by decide) (by decide)
+/-- values of two record types that differ only below the outermost name of a field's named
+    type were all "equal" across the two types before /repo commit 2f4e3fba9 (a second source of
+    non-transitivity, finding C06:transitivity:nested-named-type, now fixed); they are ordered
+    by type now -/
+example : cmpVal true (.raw tRA [2, 4]) (.raw tRB [2, 2]) = .lt ∧
+    cmpVal true (.raw tRB [2, 2]) (.raw tRA [2, 2]) = .gt := by decide
 
 theorem compare_total_preorder_partial (nullsMax : Bool) (a b c : Val)
     (oka : a.ok = true) (okb : b.ok = true) (okc : c.ok = true)
@@ -154,6 +154,29 @@ theorem sortOp_limit_irrelevant (nullsFirst reverse : Bool) (dirs : List Bool) (
     (h : ∀ r ∈ batchRows batches, r.okFor (sortConfig nullsFirst reverse dirs).2 m) :
     sortOp nullsFirst reverse dirs limit batches = sortOp nullsFirst reverse dirs limit' batches := by
   rw [sortOp_eq nullsFirst reverse dirs m limit batches h, sortOp_eq nullsFirst reverse dirs m limit' batches h]
+
+/-! ### merge
+
+  `merge.Op` pops the parent whose head is minimal (which one among equal heads is up to the
+  heap) and emits either one value or — when the last value of the rest of that parent's batch
+  is not greater than the other heads — that whole rest (`MergeStep`, Proofs/Merge). -/
+
+/-- **merge_sorted**: for every run of that nondeterministic process over parents that are each
+    sorted, the output is sorted and contains every input value exactly once. -/
+theorem merge_sorted {α : Type} (le : α → α → Bool)
+    (trans : ∀ a b c, le a b = true → le b c = true → le a c = true) (refl : ∀ a, le a a = true)
+    (parents : List (List α)) (out : List α) (h : MergeRun le parents out)
+    (hs : ∀ p ∈ parents, p.Pairwise (fun a b => le a b = true)) :
+    out.Pairwise (fun a b => le a b = true) ∧ out.Perm parents.flatten :=
+  Zed.merge_sorted le trans refl parents out h hs
+
+/-- the Comparator's `le` on guarded rows satisfies the hypotheses of `merge_sorted` -/
+theorem merge_sorted_rows_hyps (nullsMax : Bool) (dirs : List Bool) (m : Bool) :
+    (∀ a b c : Row, a.okFor dirs m → b.okFor dirs m → c.okFor dirs m →
+      leRow nullsMax dirs a b = true → leRow nullsMax dirs b c = true → leRow nullsMax dirs a c = true) ∧
+    (∀ a : Row, leRow nullsMax dirs a a = true) :=
+  ⟨fun a b c ha hb hc => leRow_trans nullsMax dirs m a b c ha hb hc,
+   fun a => by have := leRow_total nullsMax dirs a a; simpa using this⟩
 
 /-- non-vacuity of the row guard -/
 example : (Row.mk [.num tInt64 (.int 5), .null tFloat64] 0).okFor [false, true] true := by
